@@ -271,8 +271,10 @@ class Leaf:
 
 
 class Sym:
-    def __init__(s, model, inline=None, inline_depth=3, assume=None, tag_calls=None):
+    def __init__(s, model, inline=None, inline_depth=3, assume=None, tag_calls=None, inline_unknown=True):
         s.model = model
+        s.inline_unknown = inline_unknown
+        s._inline_depth = 0
         s.tag_calls = tag_calls      # set of attribute names: calls x.<name>(...) get a site id as 5th element
         s.inline = inline            # predicate(term g) -> bool : inline calls to this repo function
         s.inline_depth = inline_depth
@@ -329,6 +331,15 @@ class Sym:
                 parts.append(('cmp', CMPOPS[type(op)], left, rt))
                 left = rt
             return parts[0] if len(parts) == 1 else ('and', tuple(parts))
+        if isinstance(n, ast.Call) and getattr(s, 'inline_unknown', False) and hasattr(s, '_mod') and s._mod == mod:
+            fake = Leaf()
+            fake.env = env
+            tgt = s._inline_target(n, fake)
+            if tgt is not None:
+                res = s.inline_call(n, fake, tgt)
+                if res is not None and len(res) == 1 and not res[0][2] and not res[0][0].conds and res[0][1] is not None \
+                        and not any(e[0] in ('store', 'yield') for e in res[0][0].effects):
+                    return res[0][1]
         if isinstance(n, ast.Call):
             f = T(n.func)
             args = []
@@ -356,7 +367,16 @@ class Sym:
         if isinstance(n, ast.Dict):
             return ('dict', tuple((T(k) if k is not None else ('c', '**'), T(v)) for k, v in zip(n.keys, n.values)))
         if isinstance(n, ast.IfExp):
-            return ('ite', T(n.test), T(n.body), T(n.orelse))
+            c, a, b = T(n.test), T(n.body), T(n.orelse)
+            # canonical polarity: the condition of an 'ite' term is never negated
+            while True:
+                if c[0] == 'not':
+                    c, a, b = c[1], b, a
+                elif c[0] == 'cmp' and c[1] in ('is not', '!=', 'not in'):
+                    c, a, b = ('cmp', {'is not': 'is', '!=': '==', 'not in': 'in'}[c[1]], c[2], c[3]), b, a
+                else:
+                    break
+            return ('ite', c, a, b)
         if isinstance(n, ast.JoinedStr):
             return ('str',)
         if isinstance(n, ast.Lambda):
@@ -540,7 +560,117 @@ class Sym:
         else:
             leaf.notes.append('unsupported target %s' % ast.unparse(tgt))
 
+    # ------------------------------------------------------------------ inlining of helpers unknown to the rules
+    def _inline_target(s, call, leaf):
+        """(mod, cls, fn, bound-self?) if `call` targets a repo function/method that the rules do not know by name"""
+        if not s.inline_unknown or s._inline_depth >= 3 or not isinstance(call, ast.Call):
+            return None
+        from .known_names import KNOWN
+        f = call.func
+        m = s.model
+        tgt = None
+        if isinstance(f, ast.Name) and f.id not in leaf.env:
+            g = m.resolve_global(s._mod, f.id)
+            lk = m.lookup(g)
+            if lk and lk[0] == 'func':
+                tgt = (g[1], None, lk[1], False, '%s.%s' % (g[1], lk[1].name))
+        elif isinstance(f, ast.Attribute) and isinstance(f.value, ast.Name):
+            if f.value.id == 'self' and s._cls is not None and leaf.env.get('self', ('self',)) == ('self',):
+                r = m.find_method(s._mod, s._cls, f.attr)
+                if r and not m.is_property(r[2]):
+                    static = any(isinstance(d, ast.Name) and d.id == 'staticmethod' for d in r[2].decorator_list)
+                    tgt = (r[0], r[1], r[2], not static, '%s.%s.%s' % (r[0], r[1].name, r[2].name))
+            else:
+                g = m.resolve_global(s._mod, f.value.id) if f.value.id not in leaf.env else None
+                lk = m.lookup(g) if g else None
+                if lk and lk[0] == 'class':
+                    r = m.find_method(g[1], lk[1], f.attr)
+                    if r and any(isinstance(d, ast.Name) and d.id == 'staticmethod' for d in r[2].decorator_list):
+                        tgt = (r[0], r[1], r[2], False, '%s.%s.%s' % (r[0], r[1].name, r[2].name))
+        if tgt is None or tgt[4] in KNOWN:
+            return None
+        fn = tgt[2]
+        if any(isinstance(x, (ast.Yield, ast.YieldFrom)) for x in ast.walk(fn)) or fn.args.vararg or fn.args.kwarg:
+            return None
+        if any(isinstance(a, ast.Starred) for a in call.args) or any(k.arg is None for k in call.keywords):
+            return None
+        return tgt
+
+    def inline_call(s, call, leaf, tgt):
+        """-> list of (leaf, value term | None, raised?)"""
+        mod2, cls2, fn, bound, _ = tgt
+        params = [a.arg for a in fn.args.posonlyargs + fn.args.args]
+        env = {}
+        if bound and params:
+            env[params[0]] = ('self',)
+            params = params[1:]
+        elif cls2 is not None and params and params[0] == 'self':
+            return None
+        argt = [s.T(a, leaf) for a in call.args]
+        for a in call.args:
+            s.note_calls(a, leaf)
+        for k in call.keywords:
+            s.note_calls(k.value, leaf)
+        kwt = {k.arg: s.T(k.value, leaf) for k in call.keywords}
+        defaults = fn.args.defaults
+        for i, pn in enumerate(params):
+            if i < len(argt):
+                env[pn] = argt[i]
+            elif pn in kwt:
+                env[pn] = kwt[pn]
+            else:
+                j = i - (len(params) - len(defaults))
+                if j < 0:
+                    return None
+                env[pn] = s.term(defaults[j], {}, mod2, cls2)
+        for a, d in zip(fn.args.kwonlyargs, fn.args.kw_defaults):
+            env[a.arg] = kwt.get(a.arg, s.term(d, {}, mod2, cls2) if d is not None else ('unk', a.arg))
+        inner = Leaf()
+        inner.env = env
+        save = (s._mod, s._cls)
+        s._mod, s._cls = mod2, (cls2 if bound else (cls2 if cls2 is not None else None))
+        s._inline_depth += 1
+        try:
+            res = s.block(fn.body, [inner])
+        finally:
+            s._mod, s._cls = save
+            s._inline_depth -= 1
+        out = []
+        base = len(leaf.conds)
+        for r in res:
+            l2 = leaf.clone()
+            l2.conds += r.conds
+            for e in r.effects:
+                l2.effects.append(e[:4] + (e[4] + base,))
+            l2.notes += r.notes
+            if r.outcome == 'raise':
+                l2.outcome, l2.value, l2.node = 'raise', r.value, r.node
+                out.append((l2, None, True))
+            else:
+                out.append((l2, r.value if r.outcome == 'return' else ('c', None), False))
+        return out
+
     def stmt(s, st, leaf):
+        # a call of a helper the rules do not know, standing as a whole statement value, is inlined (all its paths)
+        if isinstance(st, (ast.Expr, ast.Assign, ast.Return)) and isinstance(getattr(st, 'value', None), ast.Call):
+            tgt = s._inline_target(st.value, leaf)
+            if tgt is not None:
+                res = s.inline_call(st.value, leaf, tgt)
+                if res is not None:
+                    out = []
+                    for l2, v, raised in res:
+                        if raised:
+                            out.append(l2)
+                        elif isinstance(st, ast.Expr):
+                            out.append(l2)
+                        elif isinstance(st, ast.Assign):
+                            for t in st.targets:
+                                s.assign_target(t, v, l2, st)
+                            out.append(l2)
+                        else:
+                            l2.outcome, l2.value, l2.node = 'return', v, st
+                            out.append(l2)
+                    return out
         if isinstance(st, ast.Expr):
             if isinstance(st.value, ast.Constant):
                 return [leaf]
